@@ -128,6 +128,18 @@ M = [
   "\tfor i := len(f.componentPostProcessors) - 1; i >= 0; i-- {\n\t\tprocessor := f.componentPostProcessors[i]\n\t\tif ipb, ok := processor.(container.InstantiationAwareComponentPostProcessor); ok {\n\t\t\tok, err := ipb.PostProcessAfterInstantiation(meta.Raw, name)","properties stage applied in reverse list order"),
  ("C20-m04","C20","app/app.go",
   "\t\t\t\tdefer wg.Done()\n","","closer goroutine never calls Done"),
+ # ---- third batch: termination (C02: start-up always terminates) ----
+ ("C02-m04","C02","component_definition/meta.go",
+  "\t\tif field.Anonymous && field.Tag == \"\" && field.Type.Kind() == reflect.Struct {",
+  "\t\tif field.Anonymous && field.Tag == \"\" && (field.Type.Kind() == reflect.Struct || field.Type.Kind() == reflect.Ptr) {","embedded pointers entered too (a self-referential type recurses forever)"),
+ ("C02-m05","C02","container/support/singleton_component_registry.go",
+  "\tr.singletonCurrentlyInCreation.Put(name)\n\tr.logger().Tracef(\"create instance of singleton '%s'\", name)",
+  "\tr.logger().Tracef(\"create instance of singleton '%s'\", name)","creation no longer marks the name (nothing bounds the nesting of creations)"),
+ ("C02-m06","C02","container/factory/factory.go",
+  "\tsharedInstance, err := f.singletonComponentRegistry.GetSingleton(name, true)\n\tif err != nil {\n\t\treturn nil, err\n\t}\n\tif sharedInstance != nil {",
+  "\tsharedInstance, err := f.singletonComponentRegistry.GetSingleton(name, true)\n\tif err != nil {\n\t\treturn nil, err\n\t}\n\tif sharedInstance != nil && !f.singletonComponentRegistry.IsSingletonCurrentlyInCreation(name) {","early references ignored for names in creation (a cycle re-enters creation)"),
+ ("C02-m07","C02","container/processors/dependency_aware_post_processors.go",
+  "\tfor _, prop := range properties {","\tfor i := 0; i < len(properties); {\n\t\tprop := properties[i]","loop over the injection points never advances"),
 ]
 def main():
     env = dict(os.environ, GOFLAGS="-mod=mod", GOPROXY="off", GOSUMDB="off", GOTOOLCHAIN="local")
